@@ -39,6 +39,42 @@ def wrap(inner):
     return FwdSchema()(inner)
 
 
+class ForwardingHooks:
+    """the same four hooks provided by a plain MIXIN (found through the MRO, not in the custom class's own body)"""
+    def __represent__(self, visitor, *, indent: int = 0, **kwargs: Any) -> str:
+        return self.props.inner.__accept__(visitor, indent=indent, **kwargs)
+
+    def __generate__(self, visitor, **kwargs: Any) -> Any:
+        return self.props.inner.__accept__(visitor, **kwargs)
+
+    def __validate__(self, visitor, *, value: Any = Nil, path=Nil, **kwargs: Any):
+        return self.props.inner.__accept__(visitor, value=value, path=path, **kwargs)
+
+    def __substitute__(self, visitor, *, value: Any = Nil, **kwargs: Any):
+        return self.__class__(self.props.update(
+            inner=self.props.inner.__accept__(visitor, value=value, **kwargs)))
+
+
+class MixFwdSchema(CustomSchema[FwdProps], ForwardingHooks):
+    def __call__(self, inner):
+        return self.__class__(self.props.update(inner=inner))
+
+
+class SubFwdSchema(FwdSchema):
+    """inherits every hook from a custom base and overrides nothing"""
+
+
+class SubSubFwdSchema(SubFwdSchema):
+    def __represent__(self, visitor, *, indent: int = 0, **kwargs: Any) -> str:     # overrides ONE hook, by delegation
+        return super().__represent__(visitor, indent=indent, **kwargs)
+
+
+FWD_CLASSES = (FwdSchema, MixFwdSchema)          # SubFwd / SubSubFwd are FwdSchema subclasses
+for _c in (MixFwdSchema, SubFwdSchema, SubSubFwdSchema):
+    encode.CUSTOM_CLASSES.append(_c)
+WRAPPERS = [wrap, lambda inner: MixFwdSchema()(inner), lambda inner: SubFwdSchema()(inner), lambda inner: SubSubFwdSchema()(inner)]
+
+
 class DeckSchema(CustomSchema[Props]):
     """a custom type whose generation uses every primitive of the generator's Random, shuffle_list included"""
     def __represent__(self, visitor, *, indent: int = 0, **kwargs: Any) -> str:
